@@ -563,7 +563,8 @@ def many_examples(a):
         r = {"case": {k: c[k] for k in c if k != "root"}, "runs": []}
         try:
             with_text = c["fmt"] != "fb"                       # (fb has no variable-length text attributes)
-            attrs = [Attribute(name="id", dtype="int64", shape=()), Attribute(name="x", dtype="float64", shape=(2,))]
+            xdt = np.float32 if c["fmt"] == "tfrec" else np.float64         # (tfrec has no float64 features)
+            attrs = [Attribute(name="id", dtype="int64", shape=()), Attribute(name="x", dtype=np.dtype(xdt).name, shape=(2,))]
             if with_text:
                 attrs += [Attribute(name="s", dtype="str", shape=()), Attribute(name="b", dtype="bytes", shape=())]
             ds = sp.mk(root, fmt=c["fmt"], comp=c["comp"], eps=c["eps"], attrs=attrs)
@@ -572,7 +573,7 @@ def many_examples(a):
                 for i in range(c["n"]):
                     sv = ("identifier-%d-é" % i) * (1 + i // 300)
                     bv = (b"\xff\x01" + str(i).encode()) * (1 + i // 250)
-                    xv = np.array([i * 1e-300 if i % 2 else i * 1e300, -float(i)], dtype=np.float64)
+                    xv = np.array([i * 1e-30 if i % 2 else i * 1e30, -float(i)], dtype=xdt)
                     vals = {"id": np.int64(i), "x": xv}
                     if with_text: vals.update({"s": sv, "b": bv})
                     f.write_example(values=vals, split="train")
@@ -585,7 +586,7 @@ def many_examples(a):
                     if isinstance(v, str): v = v.encode("utf-8")
                     v = bytes(v)
                     return v.hex() if as_bytes else v.decode("utf-8", "replace")
-                return [int(np.asarray(e["id"]).reshape(-1)[0]), np.ascontiguousarray(np.asarray(e["x"], dtype=np.float64)).tobytes().hex(),
+                return [int(np.asarray(e["id"]).reshape(-1)[0]), np.ascontiguousarray(np.asarray(e["x"], dtype=xdt)).tobytes().hex(),
                         txt(e["s"], False) if with_text else None, txt(e["b"], True) if with_text else None]
             for rd in c["readers"]:
                 try:
@@ -598,6 +599,49 @@ def many_examples(a):
             r["want_n"] = len(want)
         except BaseException as e:  # noqa: BLE001
             r["error"] = f"{type(e).__name__}: {str(e)[:200]}"
+        shutil.rmtree(root, ignore_errors=True)
+        out.append(r)
+    return out
+
+
+def overlapping_rust_readers(a):
+    """(child) several Rust-backed readers alive in one process with staggered life times, over splits that hold *different* values:
+    A (train) is opened first, then B (test); A runs to its end and is released while B is in mid-pass; C (train) is opened; B and C
+    are consumed alternately.  Every reader yields exactly the values written to its own split."""
+    import shutil
+    sp.sedpack(rust=True)
+    import numpy as np
+    from sedpack.io import Attribute, Dataset
+    out = []
+    for c in a["cases"]:
+        root = c["root"]; shutil.rmtree(root, ignore_errors=True)
+        r = {"case": {k: c[k] for k in c if k != "root"}}
+        try:
+            ds = sp.mk(root, fmt="fb", comp=c["comp"], eps=2, attrs=[Attribute(name="id", dtype="int64", shape=()), Attribute(name="x", dtype="float32", shape=(3,))])
+            want = {"train": [], "test": []}
+            with ds.filler() as f:
+                for split, base in (("train", 1000), ("test", 2000)):
+                    for i in range(c["n"]):
+                        x = np.array([base + i, -(base + i), 0.5], dtype=np.float32)
+                        f.write_example(values={"id": np.int64(base + i), "x": x}, split=split); want[split].append([base + i, x.tobytes().hex()])
+            ds = Dataset(root)
+            canon = lambda e: [int(np.asarray(e["id"]).reshape(-1)[0]), np.ascontiguousarray(np.asarray(e["x"], dtype=np.float32)).tobytes().hex()]
+            rust = lambda split: ds.as_numpy_iterator_rust(split=split, repeat=False, shuffle=0, file_parallelism=2)
+            got = {"A": [], "B": [], "C": []}
+            A = rust("train"); got["A"].append(canon(next(A)))
+            B = rust("test"); got["B"].append(canon(next(B)))
+            got["A"] += [canon(e) for e in A]; del A
+            C = rust("train")
+            its, live = {"B": B, "C": C}, ["B", "C"]
+            while live:
+                for nm in list(live):
+                    try: got[nm].append(canon(next(its[nm])))
+                    except StopIteration: live.remove(nm)
+            r["same"] = {"A": got["A"] == want["train"], "B": got["B"] == want["test"], "C": got["C"] == want["train"]}
+            r["lens"] = {k: len(v) for k, v in got.items()}
+            r["first_foreign"] = next(([nm, g] for nm, sp_ in (("A", "train"), ("B", "test"), ("C", "train")) for g in got[nm] if g not in want[sp_]), None)
+        except BaseException as e:  # noqa: BLE001
+            r["error"] = f"{type(e).__name__}: {str(e)[:160]}"
         shutil.rmtree(root, ignore_errors=True)
         out.append(r)
     return out
@@ -742,9 +786,16 @@ def run(ctx):
                            f"fb/{c['comp'] or '-'} reader {x['reader']}: examples holding {c['size'] >> 20} MiB arrays (random / all-zero / constant; shards above 16 MiB) "
                            + (f"raised {x['error']}" if "error" in x else f"read back differently (first difference at example {x['first_diff']}, {x['n']} of {b['want_n']} examples)"),
                            {"bulk_case": c, "run": x})
+    # ---- several Rust-backed readers alive at once over splits with different values
+    ocases = [{"root": str(ctx.scratch / f"c01_ovl_{i}"), "comp": comp, "n": 9} for i, comp in enumerate(["", "LZ4"][: ctx.pick(1, 2)] if not ctx.thorough else ["", "LZ4", "GZIP"])]
+    for b in (child.call("harness.checks.c01", "overlapping_rust_readers", {"cases": ocases}, timeout=600) if not ctx.replay else []):
+        if b.get("error") or not all(b["same"].values()):
+            ctx.report({"fmt": "fb", "kind": "overlapping-readers", "reader": "rust"},
+                       f"fb/{b['case']['comp'] or '-'}: three Rust readers with staggered life times over two splits: {b.get('error') or ''} {b.get('same')} lengths {b.get('lens')}; "
+                       f"first value that was never written to the split being read: {b.get('first_foreign')}", {"overlap_case": b["case"], "result": {k: v for k, v in b.items() if k != 'case'}})
     # ---- counts: one shard with well over a thousand examples
     mcases = [{"root": str(ctx.scratch / f"c01_many_{i}"), "fmt": fmt, "comp": comp, "eps": 5000, "n": ctx.pick(1300, 4200),
-               "readers": ["sync", "concurrent"] + (["rust"] if fmt == "fb" else []) + (["tf"] if ctx.thorough else [])}
+               "readers": ["sync", "concurrent"] + (["rust"] if fmt == "fb" else []) + (["tf"] if ctx.thorough and fmt != "npz" else [])}      # (as_tfdataset has no text attributes for npz)
               for i, (fmt, comp) in enumerate([("npz", ""), ("npz", "ZIP"), ("fb", "LZ4"), ("tfrec", "")][: ctx.pick(3, 4)] if not ctx.thorough else [("npz", ""), ("npz", "ZIP"), ("fb", "LZ4"), ("tfrec", "")])]
     many = child.call("harness.checks.c01", "many_examples", {"cases": mcases}, timeout=1800) if not ctx.replay else []
     for b in many:
